@@ -25,10 +25,68 @@ package requests
 //@ prop C14
 //@ ensures[error-propagates] ret1(getBodyForUnmarshal) != nil ==> ret1 == ret1(getBodyForUnmarshal) && ret0 == nil && !called(NewJson)
 //@ ensures[undecodable-body-is-an-error] called(NewJson) && ret1(NewJson) != nil ==> ret1 != nil && ret0 == nil
+//@ at call NewJson assert[decodes-the-checked-body] arg(NewJson, 0) == ret0(getBodyForUnmarshal) && ret1(getBodyForUnmarshal) == nil
+
+// ------------------------------------------------------------------ C14 / C19: the request builder hands itself on, one field set per step
+//@ func New
+//@ safety
+//@ nomod
+//@ fresh
+//@ prop C14 C19
+//@ ensures[a-get-request-builder-for-the-endpoint] typeis(result, "*builder") && as(result, "*builder").endpoint == endpoint
+//@     && as(result, "*builder").method == "GET" && as(result, "*builder").result == nil
+
+//@ iface Builder.WithContext
+//@ prop C14 C19
+//@ ensures[a-builder] result != nil
+//@ iface Builder.WithBody
+//@ prop C14 C19
+//@ ensures[a-builder] result != nil
+//@ iface Builder.WithMethod
+//@ prop C14 C19
+//@ ensures[a-builder] result != nil
+//@ iface Builder.WithHeaders
+//@ prop C14 C19
+//@ ensures[a-builder] result != nil
+//@ iface Builder.SetHeader
+//@ prop C14 C19
+//@ ensures[a-builder] result != nil
+//@ iface Builder.Do
+//@ prop C14 C19
+//@ ensures[a-result] result != nil
+
+//@ func (*builder).WithContext
+//@ safety
+//@ prop C14 C19
+//@ modifies builder.context
+//@ ensures[same-builder-with-the-context] result == r && r.context == ctx
+
+//@ func (*builder).WithBody
+//@ safety
+//@ prop C14 C19
+//@ modifies builder.body
+//@ ensures[same-builder-with-the-body] result == r && r.body == body
+
+//@ func (*builder).WithMethod
+//@ safety
+//@ prop C14 C19
+//@ modifies builder.method
+//@ ensures[same-builder-with-the-method] result == r && r.method == method
+
+//@ func (*builder).WithHeaders
+//@ safety
+//@ prop C14 C19
+//@ ensures[same-builder] result == r
+
+//@ func (*builder).SetHeader
+//@ safety
+//@ prop C14 C19
+//@ ensures[same-builder-with-a-header-map] result == r && r.header != nil
 
 // ------------------------------------------------------------------ C14: a result without an error is a completely received response
 //@ func (*builder).do
-//@ prop C14
+//@ prop C14 C19
+//@ ensures[a-result] typeis(result, "*result")
 //@ ensures[no-error-only-for-a-completely-read-response] typeis(result, "*result") && (as(result, "*result").err == nil ==>
 //@     ret1(http.NewRequestWithContext) == nil && ret1(Do) == nil && ret1(io.ReadAll) == nil
 //@     && as(result, "*result").response == ret0(Do) && as(result, "*result").body == ret0(io.ReadAll))
@@ -68,5 +126,8 @@ package requests
 //@ iface Result.Headers
 //@ prop C14
 //@ pure
+//@ iface Result.UnmarshalSimpleJSON
+//@ prop C14 C19
+//@ ensures[json-or-error] ret1 == nil ==> ret0 != nil
 //@ prop C14
 //@ scan[result-fields-written-only-where-the-result-is-made] field-writers result.* pkg/requests.(*builder).do
